@@ -47,6 +47,13 @@ CLAIMED.update({
    technique=TECH + ": simulated terminal (line-at-a-time event feed with injected erroneous statements) over the REPL's UI seam, reference session, per-event timing/prompt/exactly-once invariants"),
 })
 
+CLAIMED.update({
+ "C17": dict(engine="containers", design="§3 C17",
+   text="Seeded histories over a pool of six aliases bound to lists, string-keyed dicts and sets (some aliases of one another): every item/slice/extended-slice assignment and deletion shape, append/extend/+=/slice-assign from lists, tuples, iterators, generator expressions, other aliases and the container itself, sort with key functions that mutate or read lists, *=, copies by constructor/slice/+[]/*1, live iterators stepped between mutations, loops that mutate what they iterate, dict set/del/get/update/views, set add/ops; dict and set iteration order is chosen by the simulator. After every operation the result or exception class and a dump of all aliases must equal CPython's containers after the same history.",
+   note="Trusted: CPython 3.11 containers as the reference model; methods generated from a static list of what the pinned tree registers plus update. Four known findings (dict.update and set.update missing, equal scalars of different types kept distinct in sets, dict views iterating in unrelated orders) are listed in known_findings.json, their input classes are excluded from random generation and their witnesses replayed on every run.",
+   technique=TECH + ": seeded operation histories on aliased containers with live iterators and callbacks, simulator-chosen map order, CPython reference model"),
+})
+
 NA = {
  "C01": "pure function of the program text (evaluation order/grouping): no schedule, clock, fault or environment history to simulate; needs enumeration against a reference semantics",
  "C02": "which statement raises/returns is fixed by program + inputs; the unwinding loop is deterministic and single-threaded; no simulation target",
@@ -62,7 +69,6 @@ NA = {
 }
 PENDING = {
  "C08": "engine `isolation` not built yet",
- "C17": "engine `containers` not built yet",
 }
 
 def main():
